@@ -127,6 +127,7 @@ PROPS = {
     "C02": codec("C02", "exploration",
                  "case = decode or reconstruct on an arbitrary sub-multiset of one stripe (all 2^n subsets for n<=10 quick / 15 thorough, the band tolerance<|E|<=m+1 and random subsets above); "
                  "oracle = rc<0 or byte-exact original; crash/sanitizer report = violation; non-trivial = erasures beyond tolerance or duplicated fragments; distinct = (config, present mask, presentation/destination)",
+                 flavours=("asan", "plain"),
                  exhaustive={"quick": False, "thorough": False},
                  exhaustive_scope="all 2^n subsets for every configuration with n<=10 (quick) / n<=15 (thorough); see counter configs_with_all_2^n_subsets"),
     "C03": codec("C03", "exploration",
@@ -151,7 +152,10 @@ PROPS = {
     "C19": codec("C19", "exploration",
                  "C01/C02/C03/C06 monitors on isa_l_rs_vand and isa_l_rs_cauchy running on the clean-room libisal.so.2, success required iff the first k surviving rows are invertible over GF(2^8) (monitor's elimination); "
                  "fragments_needed queries naming a fragment more than once must be answered when the distinct set is within tolerance; plus every position of an injected gf_invert_matrix failure in a scripted workload; non-trivial/distinct as in the respective monitor",
-                 modes=("roundtrip", "nosilent", "reconstruct", "needed", "faults")),
+                 modes=("roundtrip", "nosilent", "reconstruct", "needed", "faults"),
+                 extra_runs=[{"name": "asan-roundtrip-libvariant1", "flavour": "asan", "driver": "drv_codec", "args": ["--mode", "roundtrip"], "env": {"ISAL_REF_VARIANT": "1"}, "shards": 8},
+                             {"name": "asan-reconstruct-libvariant2", "flavour": "asan", "driver": "drv_codec", "args": ["--mode", "reconstruct"], "env": {"ISAL_REF_VARIANT": "2"}, "shards": 8},
+                             {"name": "asan-faults-libvariant1", "flavour": "asan", "driver": "drv_codec", "args": ["--mode", "faults"], "env": {"ISAL_REF_VARIANT": "1"}, "shards": 4}]),
     "C20": codec("C20", "exploration",
                  "case = decode(force_metadata_checks=1) on survivors S with damaged subset B (payload bit flip under CRC32, or re-sealed header edit: idx out of range, backend id, backend version, newer library version); "
                  "in half of the cases the presented fragments are validated while intact and damaged in place afterwards; oracle = original bytes required iff S minus B within tolerance, otherwise error or exact original; never other bytes; non-trivial = B non-empty; distinct = (config, S, B, first damage kind)"),
